@@ -11,6 +11,7 @@ import Bng.Model.KeySpec
     getsub <s>.<c>        => s3 | none
     getvlan s3            => <s>.<c> | none
     stats                 => <n>
+    stress <seed> <g> <n> => anomalies <k> fwd s1=<s>.<c>,… rev <s>.<c>=s1,… total <n>   (last op; schedule dependent, monitor only)
 -/
 namespace Bng.Drv.QinqDrv
 open Bng Bng.Drv Bng.Qinq
@@ -52,6 +53,20 @@ def parseOp (toks : List String) : Option Op :=
   | ["stats"] => some .stats
   | _ => none
 
+def parseFwd (s : String) : Option (List (Nat × Nat)) :=
+  if s == "-" then some [] else
+  (s.splitOn ",").mapM fun item =>
+    match item.splitOn "=" with
+    | [k, p] => do let k ← parseTagged 's' k; let p ← parsePairDot p; pure (k, keyOf p)
+    | _ => none
+
+def parseRev (s : String) : Option (List (Nat × Nat)) :=
+  if s == "-" then some [] else
+  (s.splitOn ",").mapM fun item =>
+    match item.splitOn "=" with
+    | [p, k] => do let k ← parseTagged 's' k; let p ← parsePairDot p; pure (keyOf p, k)
+    | _ => none
+
 def event (c : Cfg) (op : Op) (impl : String) : KeySpec.Ev :=
   match op, splitTokens impl with
   | .register p k, ["ok"] => .gave k (keyOf p) (valid c p) false
@@ -76,6 +91,19 @@ def step (st : St) (toks : List String) (impl : String) : St × LineResult :=
     | some a, some b, some rs =>
       ({ model := some (init { sRanges := rs, cS := a, cE := b }), mon := {} }, { modelObs := "ok" })
     | _, _, _ => (st, { modelObs := "badop" })
+  | ["stress", _, _, _] =>
+    -- concurrency run (-race build): schedule dependent, so the model's observation is the implementation's,
+    -- verbatim; the MONITOR judges the final tables (no pair twice, reverse = inverse of forward, every pair valid).
+    match st.model, splitTokens impl with
+    | some m, ["anomalies", a, "fwd", f, "rev", r, "total", t] =>
+      match parseFwd f, parseRev r with
+      | some f, some r =>
+        let (_, vs) := KeySpec.check st.mon (.adopt f f r (f.filter fun p => !valid m.cfg (p.2 / 65536, p.2 % 65536)))
+        let vs := if a == "0" then vs else ("fwd-rev", s!"{a} anomalous answers during the concurrent run") :: vs
+        let vs := if t.toNat? == some f.length then vs else ("fwd-rev", "Stats().TotalMappings differs from the number of mappings") :: vs
+        ({ model := none, mon := {} }, { modelObs := impl, viols := vs.map fun (n, d) => (n, "none", d) })
+      | _, _ => ({ model := none, mon := {} }, { modelObs := "badobs" })
+    | _, _ => ({ model := none, mon := {} }, { modelObs := "badobs" })
   | _ =>
     match st.model, parseOp toks with
     | some m, some op =>
